@@ -38,6 +38,7 @@ def run(tier: str) -> int:
     # the skip idiom (overlapping terminators, every order), look-alike literals, and one choice used both as WHITESPACE and as an alternative
     fams.append({"Family": "optsk", "MaxLen": 4, "Starts": "zero", "Sample": 200 if not thorough else 0, "workers": 3 if not thorough else 8, "style": "min", "modes": four})
     fams.append({"Family": "sqesc", "MaxLen": 3, "Starts": "zero", "Sample": 250 if not thorough else 0, "workers": 3 if not thorough else 8, "style": "min", "modes": four})
+    fams.append({"Family": "sqcls", "MaxLen": 3 if not thorough else 4, "Starts": "zero", "Sample": 300 if not thorough else 0, "workers": 3 if not thorough else 8, "style": "min", "modes": four})
     fams.append({"Family": "sqws", "MaxLen": 4, "Starts": "zero", "Sample": 0, "workers": 3 if not thorough else 8, "style": "min", "modes": four})
     for f in fams:
         replay.run_family(rep, f, "sem", f.get("modes", modes))
